@@ -202,6 +202,18 @@ def root_fn(prog, nkey):
     return nkey
 
 
+def closures_calling(prog, parent, callee, passed=False):
+    """Closure bodies lexically inside fn `parent` (at any depth) that directly call `callee` (an nkey, or a predicate on
+    nkeys).  Closures are selected by what they do, never by their index: adding an unrelated closure to the function
+    renumbers `{closure#n}` and must not move a rule to another body."""
+    pred = callee if callable(callee) else (lambda c: c == callee)
+    out = []
+    for b in prog.children.get(parent, []):
+        if any(pred(c) for s, t in b.calls() for c in b.callees_of_call(t, passed=passed)):
+            out.append(b)
+    return sorted(out, key=lambda b: b.nkey)
+
+
 def writers_of_field(prog, field, crates=None, kinds=("assign", "refmut", "call_dst")):
     """{root fn nkey: [(body, site, kind)]} for writes to Adt.field."""
     out = {}
@@ -290,6 +302,12 @@ def bool_branch(body, call_site):
                 tr = arms.get(1, st["otherwise"])
                 return (f, tr) if neg else (tr, f)
         if nxt is None:
+            return None
+        # the copy must be the only definition of its destination: a local that is also assigned on another path
+        # (a merged `a && b`) does not carry the call's answer alone
+        ndefs = sum(1 for s in body.sites() if body.at(s).get("k") in ("assign", "call") and body.at(s).get("dst") and
+                    body.at(s)["dst"]["l"] == nxt[0] and not body.at(s)["dst"].get("p"))
+        if ndefs != 1:
             return None
         cur, neg = nxt
     return None
